@@ -1181,6 +1181,81 @@ func ExpandRoot(p *core.Prog, r *core.Report) {
 						return
 					}
 				}
+				// a helper of the package that selects the root: each of its results is one of its own parameters or
+				// a private copy of what one of them points to (`root := *schema; return &root`), and at this call
+				// those parameters receive what the enclosing function itself was given
+				if h != nil && p.InSubject(h) && len(h.Blocks) > 0 && len(h.Params) == len(a.Call.Args) {
+					peel := func(e ssa.Value) ssa.Value {
+						for {
+							if mi, ok := e.(*ssa.MakeInterface); ok {
+								e = mi.X
+								continue
+							}
+							if ci, ok := e.(*ssa.ChangeInterface); ok {
+								e = ci.X
+								continue
+							}
+							return e
+						}
+					}
+					all, aliased, nRet := true, false, 0
+					var results []ssa.Value
+					for _, hb := range h.Blocks {
+						if ret, isRet := hb.Instrs[len(hb.Instrs)-1].(*ssa.Return); isRet && len(ret.Results) == 1 {
+							nRet++
+							rv := peel(ret.Results[0])
+							if ph, isPhi := rv.(*ssa.Phi); isPhi {
+								for _, e := range ph.Edges {
+									results = append(results, peel(e))
+								}
+							} else {
+								results = append(results, rv)
+							}
+						}
+					}
+					for _, rv := range results {
+						switch e := rv.(type) {
+						case *ssa.Parameter:
+							for k, q := range h.Params {
+								if q != e {
+									continue
+								}
+								at := peel(a.Call.Args[k])
+								if _, isP := at.(*ssa.Parameter); !isP {
+									all = false
+								}
+								if idx != 0 && len(c.Common().Args) > 0 && at == peel(c.Common().Args[0]) {
+									aliased = true
+								}
+							}
+						case *ssa.Alloc:
+							copied := false
+							for _, ref := range core.Refs(e) {
+								if st, isSt := ref.(*ssa.Store); isSt && st.Addr == ssa.Value(e) {
+									if ld, isLd := st.Val.(*ssa.UnOp); isLd && ld.Op == token.MUL {
+										if _, isP := ld.X.(*ssa.Parameter); isP {
+											copied = true
+										}
+									}
+								}
+							}
+							if !copied {
+								all = false
+							}
+						default:
+							all = false
+						}
+					}
+					if nRet > 0 && all {
+						if aliased {
+							r.Bad(rule, key+":aliases-target", pos, g.Name()+" may be given, as the root to resolve against, the very schema it expands in place (through "+h.Name()+"): a root-level $ref is replaced by its target and the definitions of the original are gone when a reference inside the expanded schema is resolved later")
+						} else {
+							r.OK(rule, key+":aliases-target", pos, "the root is not the object being expanded")
+						}
+						r.OK(rule, key, pos, "resolves against the root the enclosing function was given, or against a copy of the schema itself when none was given (selected by "+h.Name()+")")
+						return
+					}
+				}
 				r.Unk(rule, key, pos, "the root comes from a call that is not the validator's document accessor")
 			default:
 				if pth, ok := core.StablePath(arg); ok && strings.HasSuffix(pth, ".Root") {
